@@ -3,7 +3,7 @@ from tv import rrelast as A
 
 ID = 'C12'
 LEVEL = 'exploration'
-QUICK_S = 40
+QUICK_S = 150
 THOROUGH_S = 420
 EXHAUSTIVE_CLAIM = True
 TECHNIQUE = 'runtime monitoring: exhaustive small-scope enumeration of RREL ASTs + print/re-parse structural oracle + evaluation differential'
@@ -40,7 +40,36 @@ def models():
     return _models
 
 
-def classify(c1, c2, t1text):
+def fixed_names(c):
+    out = []
+    if isinstance(c, tuple):
+        if c and c[0] == 'nav' and len(c) >= 4 and c[3] is not None:
+            out.append(c[3])
+        for x in c:
+            out.extend(fixed_names(x))
+    return out
+
+
+def classify(c1, c2, t1text, printed=None):
+    """recorded finding fixed-name-trailing-backslash: a fixed name that ends in a backslash is printed in single quotes,
+    and the RREL string token then reads \\' as an escaped quote when another single quote follows later. Attributed only if
+    printing exactly those names in double quotes instead makes the printed text re-parse to the same tree."""
+    from textx.scoping.rrel import parse
+    if printed is None:
+        return None
+    bs = [n for n in fixed_names(c1) if n.endswith('\\') and '"' not in n]
+    if not bs:
+        return None
+    alt = printed
+    for n in set(bs):
+        alt = alt.replace("'" + n + "'~", '"' + n + '"~')
+    if alt == printed:
+        return None
+    try:
+        if A.canon(parse(alt)) == c1:
+            return 'fixed-name-trailing-backslash'
+    except Exception:
+        pass
     return None
 
 
@@ -60,7 +89,7 @@ def one(ctx, ast, rep, do_find):
     try:
         t2 = parse(s)
     except Exception as e:
-        ctx.violation(classify(c1, None, text), 'printed form of %r is %r which does not parse: %s' % (text, s, str(e)[:80]),
+        ctx.violation(classify(c1, None, text, s), 'printed form of %r is %r which does not parse: %s' % (text, s, str(e)[:80]),
                       {'text': text, 'printed': s}, rep)
         ctx.case(text, True)
         return
@@ -74,7 +103,7 @@ def one(ctx, ast, rep, do_find):
     nontriv = bool(fl) or any(ch in text for ch in "*(^~'\"") or text.startswith('.')
     ctx.case(text, nontriv, {'text': text, 'printed': s, 'reprinted': str(t2)})
     if c1 != c2:
-        ctx.violation(classify(c1, c2, text), 'parse(%r) prints as %r which re-parses to a different tree: %r vs %r' % (
+        ctx.violation(classify(c1, c2, text, s), 'parse(%r) prints as %r which re-parses to a different tree: %r vs %r' % (
             text, s, c1, c2), {'text': text, 'printed': s, 'tree1': repr(c1), 'tree2': repr(c2)}, rep)
         return
     if str(t2) != s:
@@ -104,7 +133,7 @@ def one(ctx, ast, rep, do_find):
 
 
 def run(ctx):
-    size = 4 if ctx.tier == 'quick' else 5
+    size = 3 if ctx.tier == 'quick' else 4
     space = list(A.enum_exprs(size))
     ctx.note('exhaustive_space', {'max_ast_size': size, 'expressions': len(space)})
     total = ctx.deadline - ctx.t0
@@ -119,7 +148,8 @@ def run(ctx):
 
 NAMES = ['packages', 'classes', 'methods', 'attrs', 'sup', 'type', 'uses', 'pkg', 'parent', 'x_1', 'é']
 TYPES = ['Package', 'Class', 'Model']
-FIXED = [('a', "'"), ('b', '"'), ('it\\\'s', "'"), ("it's", '"'), ('x"y', "'"), ('', "'"), ('a b', '"'), ('p.q', "'")]
+FIXED = [('a', "'"), ('b', '"'), ('it\\\'s', "'"), ("it's", '"'), ('x"y', "'"), ('', "'"), ('a b', '"'), ('p.q', "'"),
+         ('a\\\\', '"'), ('\\\\', '"'), ('a\\\\b', "'")]
 
 
 def rand_ast(ctx, i):
